@@ -35,14 +35,14 @@ def run(c: Check):
             f.result()
 
     # 2. behaviours from the spec
-    behs = c.tlc_sim("HashPrefix", "HashPrefix_sim.cfg", num=500 if th else 50, depth=30 if th else 24)
+    behs = c.tlc_sim("HashPrefix", "HashPrefix_sim.cfg", num=800 if th else 50, depth=30 if th else 24)
     inp = os.path.join(c.scratch, "c11_behs.json")
     json.dump(behs, open(inp, "w"))
     steps = os.path.join(c.scratch, "c11_steps.json")
 
     # 3. real code; 4. trace validation
     out, _ = c.go_harness("internal/filter/hashprefix", "^TestVerifC11Stepper$", files=["c11_test.go"],
-                          env={"VERIF_IN": inp, "VERIF_NRANDOM": 2500 if th else 150, "VERIF_C11_STEPS": steps})
+                          env={"VERIF_IN": inp, "VERIF_NRANDOM": 4000 if th else 150, "VERIF_C11_STEPS": steps})
     ev = read_ndjson(out)
     out2, _ = c.go_harness("internal/dnssvc/internal/preservice", "^TestVerifC11Middleware$", files=["c11_test.go"],
                            env={"VERIF_C11_STEPS": steps})
@@ -205,7 +205,8 @@ def _coverage(c, ev, ev2):
                 need["legacy"] += 1
     c.notes.append("exercised: %s" % json.dumps(need, sort_keys=True))
     empty = [k for k, v in need.items() if v == 0]
-    if empty:
+    if empty and not c.violations:
+        # (with violations recorded a class may be empty because of the defect itself)
         raise Undecided("vacuous run, never exercised: %s" % ", ".join(empty))
     look = [e for e in ev if e["ev"] == "Lookup"]
     c.sample({"lookup": {k: look[len(look) // 2][k] for k in ("id", "hoststr", "qt", "via", "matched", "rule")}})
